@@ -419,6 +419,7 @@ pub(super) fn apply_set_property_overlay_to_rows<S: GraphSnapshot>(
                     }
                     _ => {}
                 }
+                row = row.sync_aliases_of(var);
             }
 
             row
@@ -542,6 +543,7 @@ pub(super) fn apply_set_map_overlay_to_rows<S: GraphSnapshot>(
                     }
                     _ => {}
                 }
+                row = row.sync_aliases_of(var);
             }
 
             row
@@ -594,14 +596,16 @@ pub(super) fn apply_label_overlay_to_rows<S: GraphSnapshot>(
                         .collect(),
                 };
 
-                row = row.with(
-                    var.clone(),
-                    Value::Node(NodeValue {
-                        id: node_id,
-                        labels: current_labels,
-                        properties,
-                    }),
-                );
+                row = row
+                    .with(
+                        var.clone(),
+                        Value::Node(NodeValue {
+                            id: node_id,
+                            labels: current_labels,
+                            properties,
+                        }),
+                    )
+                    .sync_aliases_of(var);
             }
             row
         })
@@ -674,6 +678,7 @@ pub(super) fn apply_removed_property_overlay_to_rows<S: GraphSnapshot>(
                     }
                     _ => {}
                 }
+                row = row.sync_aliases_of(var);
             }
             row
         })
